@@ -25,7 +25,7 @@ pub fn hash_callbacks(on: bool) {
     HASH_CB.with(|c| c.set(on));
 }
 #[inline]
-fn hash_tick() {
+pub(crate) fn hash_tick() {
     if HASH_CB.with(|c| c.get()) {
         fuse_tick();
     }
@@ -43,6 +43,19 @@ fn clone_tick() {
 
 /// Payload of the panic raised by the fuse.
 pub struct FusePanic;
+
+thread_local! {
+    static USER_PANIC: Cell<bool> = const { Cell::new(false) };
+}
+/// the caller's own code panics (e.g. the body of a loop over an iterator);
+/// the harness catches it like a fused callback
+pub fn user_panic() -> ! {
+    USER_PANIC.with(|c| c.set(true));
+    std::panic::panic_any(FusePanic)
+}
+pub fn user_panic_take() -> bool {
+    USER_PANIC.with(|c| c.replace(false))
+}
 
 #[inline]
 pub fn cmps_reset() {
@@ -103,6 +116,13 @@ impl PartialEq for It {
     }
 }
 impl Eq for It {}
+/// under `hfuse` dropping an item is a user callback as well (`Drop::drop` may panic)
+impl Drop for It {
+    #[inline]
+    fn drop(&mut self) {
+        hash_tick();
+    }
+}
 impl Hash for It {
     #[inline]
     fn hash<S: Hasher>(&self, state: &mut S) {
@@ -124,6 +144,13 @@ impl PartialEq for Pr {
     }
 }
 impl Eq for Pr {}
+/// under `hfuse` dropping a priority is a user callback as well
+impl Drop for Pr {
+    #[inline]
+    fn drop(&mut self) {
+        hash_tick();
+    }
+}
 impl Clone for Pr {
     fn clone(&self) -> Pr {
         clone_tick();
